@@ -68,3 +68,17 @@ M("c19.m2g.404->440", "C19", E, "w = 404 * q + 354 * r + 208 + a", "w = 440 * q 
 M("c19.m2g.a", "C19", E, "a = iint((11.0 * r + 3.0) / 30.0)", "a = iint((11.0 * r + 14.0) / 30.0)")
 M("c19.g2m.10631", "C19", E, "q = iint(dp / 10631.0)", "q = iint(dp / 10613.0)")
 M("c19.g2m.yearlen", "C19", E, "return 355 if (11 * (h % 30) + 3) % 30 > 18 else 354", "return 355 if (11 * (h % 30) + 3) % 30 > 10 else 354")
+# ---- C05
+M("c05.tan-sign", "C05", C, "lon = atan2((sin(ra) * cos(eps) + tan(dec) * sin(eps)), cos(ra))", "lon = atan2((sin(ra) * cos(eps) - tan(dec) * sin(eps)), cos(ra))")
+M("c05.cos-sin-swap", "C05", C, "lat = _asin(sin(dec) * cos(eps) - cos(dec) * sin(eps) * sin(ra))", "lat = _asin(sin(dec) * sin(eps) - cos(dec) * cos(eps) * sin(ra))")
+M("c05.27.4", "C05", C, "c2 = Angle(27.4)", "c2 = Angle(27.13)", nth=1)
+M("c05.192.25", "C05", C, "c1 = Angle(192.25)", "c1 = Angle(192.85)")
+M("c05.303", "C05", C, "lon = 303.0 + lon", "lon = 33.0 + lon")
+M("c05.12.25", "C05", C, "ra = y + 12.25", "ra = y + 12.5")
+M("c05.atan2->atan", "C05", C, "h = atan2(sin(azi), (cos(azi) * sin(lat) + tan(ele) * cos(lat)))", "h = atan(sin(azi) / (cos(azi) * sin(lat) + tan(ele) * cos(lat)))")
+M("c05.hav-no-coscos", "C05", C, "theta = 2.0 * asin(sqrt(hav(ddelta) + cos(d1) * cos(d2) * hav(dalpha)))", "theta = 2.0 * asin(sqrt(hav(ddelta) + cos(d1) * cos(d1) * hav(dalpha)))")
+M("c05.gal-no-to_positive", "C05", C, "    ra = y + 12.25\n    ra.to_positive()", "    ra = y + 12.25\n")
+M("c05.circle<=", "C05", C, "if a >= sqrt(b * b + c * c):", "if a <= sqrt(b * b + c * c):")
+M("c05.pa-sign", "C05", C, "p = atan2(sin(da), (cos(d2) * tan(d1) - sin(d2) * cos(da)))", "p = atan2(sin(da), (cos(d2) * tan(d1) + sin(d2) * cos(da)))")
+M("c05.small-eps-error", "C05", C, "    eps = obliquity.rad()\n    ra = atan2", "    eps = obliquity.rad() * (1.0 + 1e-9)\n    ra = atan2")
+M("c05.asin-clamp-too-wide", "C05", C, "return asin(max(-1.0, min(1.0, x)))", "return asin(max(-0.9999999999, min(0.9999999999, x)))")
